@@ -29,8 +29,7 @@ def design_and_replay(run, tier, seed, want, tag, nreplay):
     # from a fresh file's) is operated on again are the ones hidden state can show in: take them first
     def hidden(r):
         h = r["hist"]
-        return any(x["op"]["do"] == "weed" and x["op"]["opts"]["ambigMissing"] and i + 1 < len(h) and h[i + 1]["file"] == x["file"]
-                   for i, x in enumerate(h))
+        return any(x["op"]["do"] == "weed" and x["op"]["opts"]["ambigMissing"] for x in h)
     def hidden_delete(r):
         h = r["hist"]
         return any(x["op"]["do"] == "weed" and x["op"]["opts"]["ambigMissing"] and i + 1 < len(h) and h[i + 1]["file"] == x["file"]
